@@ -27,6 +27,9 @@ def encoded_programs(draw):
     decl = draw(st.sampled_from(['cookie1', 'cookie2', 'cookie2', 'none', 'bom', 'bom+cookie']))
     if codec != 'utf-8' and decl in ('none', 'bom', 'bom+cookie'):
         decl = 'cookie1'
+    if codec == 'utf-8' and decl in ('none', 'cookie1') and draw(st.integers(0, 2)) == 0:
+        # the file is UTF-8 without a declaration; something that only looks like one sits where the interpreter does not look
+        decl = 'decoy'
 
     def word(n=None):
         n = n if n is not None else draw(st.integers(0, 5))
@@ -40,7 +43,7 @@ def encoded_programs(draw):
             # characters that str.splitlines() treats as line boundaries but the tokenizer does not
             odd = ['\x0c', '\x0b', '\x1c', '\x1d', '\x1e'] + (['\x85', '\u2028', '\u2029'] if codec == 'utf-8' else [])
             shebang += ' -x' + draw(st.sampled_from(odd)) + 'tail'
-        if r == 0:
+        if r == 0 or (decl == 'decoy' and r < 6):
             shebang += ' ' + draw(st.sampled_from(chars))  # non-ASCII byte in the shebang line
         elif r == 1 and decl.startswith('cookie'):
             # the shebang line itself carries the coding declaration (PEP 263 allows line 1)
@@ -56,6 +59,20 @@ def encoded_programs(draw):
         if shebang is None:
             lines.append(draw(st.sampled_from(['# first line comment', '', '#'])))
         lines.append(cookie)
+    elif decl == 'decoy':
+        other = draw(st.sampled_from(['latin-1', 'cp1252', 'koi8-r', 'shift_jis', 'cp437']))
+        fake = draw(st.sampled_from(COOKIE_FORMS)) % other
+        kind = draw(st.sampled_from(['line3', 'line3', 'after-code', 'in-string']))
+        if kind == 'after-code' and shebang is None:
+            # PEP 263: the second line is only looked at when the first is blank or a comment
+            lines.append(draw(st.sampled_from(['first_statement = 1', '"docstring"', 'import os'])))
+            lines.append(fake)
+        elif kind == 'in-string':
+            lines.append('text_value = "%s"' % fake)
+        else:
+            while len(lines) < 2:
+                lines.append(draw(st.sampled_from(['# licence comment', '', '#', '    ', '# ' + chars[0]])))
+            lines.append(fake)
     names = ['value_name', 'other_name', 'x']
     if codec in ('utf-8', 'latin-1', 'cp1252', 'koi8-r') and draw(st.booleans()):
         ident = {'utf-8': 'caf\xe9', 'latin-1': 'na\xefve', 'cp1252': 'caf\xe9', 'koi8-r': 'да'}[codec]
